@@ -14,11 +14,18 @@ pub mod vs {
     #[inline(always)] pub fn isize() -> isize { kani::any() }
     #[inline(always)] pub fn bool() -> bool { kani::any() }
     #[inline(always)] pub fn assume(c: bool) { kani::assume(c) }
+    /// natively: no single allocation request exceeded the limit; under Kani the `alloc` stub kind asserts it
+    #[inline(always)] pub fn alloc_ok() -> bool { true }
+    /// transparent-hasher log (hasher stub kind): were the same bytes fed to hashers #i and #j?
+    pub fn streams_equal(i: usize, j: usize) -> bool { crate::stubs::streams_equal(i, j) }
+    pub fn streams_reset() { crate::stubs::th_reset() }
     pub const NATIVE: bool = false;
 }
 
 #[cfg(kani)]
-macro_rules! vcheck { ($c:expr, $l:expr) => { kani::assert($c, concat!("VP:", $l)) }; }
+// assert WITHOUT the implicit assume of kani::assert: the check is made on a forked branch that ends,
+// so that one failing check does not hide the others behind it (every failing role is reported).
+macro_rules! vcheck { ($c:expr, $l:expr) => {{ let c: bool = $c; if kani::any::<bool>() { kani::assert(c, concat!("VP:", $l)); kani::assume(false); } }}; }
 #[cfg(kani)]
 macro_rules! vcover { ($c:expr, $l:expr) => { kani::cover($c, concat!("VC:", $l)) }; }
 
@@ -45,6 +52,19 @@ macro_rules! registry {
         #[kani::stub(parking_lot::raw_mutex::RawMutex::unlock_slow, crate::stubs::pl_unlock_slow)]
         pub fn $name() { $body }
     };
+    (@one $name:ident, $unwind:literal, alloc, $body:expr) => {
+        #[kani::proof]
+        #[kani::unwind($unwind)]
+        #[kani::stub(alloc::fmt::format, crate::stubs::stub_format)]
+        #[kani::stub(core::arch::x86_64::__cpuid_count, crate::stubs::fake_cpuid)]
+        #[kani::stub(tracing_core::callsite::DefaultCallsite::interest, crate::stubs::stub_interest)]
+        #[kani::stub(tracing::__macro_support::__is_enabled, crate::stubs::stub_is_enabled)]
+        #[kani::stub(tracing_core::event::Event::dispatch, crate::stubs::stub_dispatch)]
+        #[kani::stub(parking_lot::raw_mutex::RawMutex::lock_slow, crate::stubs::pl_lock_slow)]
+        #[kani::stub(parking_lot::raw_mutex::RawMutex::unlock_slow, crate::stubs::pl_unlock_slow)]
+        #[kani::stub(alloc::vec::Vec::with_capacity, crate::stubs::stub_vec_with_capacity)]
+        pub fn $name() { $body }
+    };
     (@one $name:ident, $unwind:literal, hasher, $body:expr) => {
         #[kani::proof]
         #[kani::unwind($unwind)]
@@ -55,8 +75,9 @@ macro_rules! registry {
         #[kani::stub(tracing_core::event::Event::dispatch, crate::stubs::stub_dispatch)]
         #[kani::stub(parking_lot::raw_mutex::RawMutex::lock_slow, crate::stubs::pl_lock_slow)]
         #[kani::stub(parking_lot::raw_mutex::RawMutex::unlock_slow, crate::stubs::pl_unlock_slow)]
-        #[kani::stub(<std::collections::hash_map::DefaultHasher as std::hash::Hasher>::write, crate::stubs::th_write)]
-        #[kani::stub(<std::collections::hash_map::DefaultHasher as std::hash::Hasher>::finish, crate::stubs::th_finish)]
+        #[kani::stub(<std::hash::DefaultHasher as std::hash::Hasher>::write, crate::stubs::th_write)]
+        #[kani::stub(<std::hash::DefaultHasher as std::hash::Hasher>::write_str, crate::stubs::th_write_str)]
+        #[kani::stub(<std::hash::DefaultHasher as std::hash::Hasher>::finish, crate::stubs::th_finish)]
         pub fn $name() { $body }
     };
 }
